@@ -36,18 +36,26 @@ def hands_from_owner(owner, how=0):
             hs[s].add(CARD[c])
     if how in (0, 3, 4):
         H = Hands(north_hand=hs[0], east_hand=hs[1], south_hand=hs[2], west_hand=hs[3])
-        return H if how == 0 else copy.deepcopy(H) if how == 3 else pickle.loads(pickle.dumps(H))
+        if how == 4:
+            try:
+                return pickle.loads(pickle.dumps(H))
+            except Exception:  # noqa  (nothing promises that a deal can be pickled: fall back to the object itself)
+                return H
+        return H if how == 0 else copy.deepcopy(H)
     other = [set(hs[2]), set(hs[3]), set(hs[0]), set(hs[1])]          # the deal turned half round: another deal
     H = Hands(north_hand=other[0], east_hand=other[1], south_hand=other[2], west_hand=other[3])
-    if how == 2:
-        for held, want in zip((H.north, H.east, H.south, H.west), hs):
-            held.clear()
-            held.update(want)
-        return H
-    G = H if how == 1 else copy.copy(H)
-    G.north, G.east, G.south, G.west = hs
-    if how == 5:
-        assert [H.north, H.east, H.south, H.west] == other
+    try:
+        if how == 2:
+            for held, want in zip((H.north, H.east, H.south, H.west), hs):
+                held.clear()
+                held.update(want)
+            return H
+        G = H if how == 1 else copy.copy(H)
+        G.north, G.east, G.south, G.west = hs
+    except Exception:  # noqa  (a Hands class that does not let its hands be replaced this way: use the constructor)
+        return Hands(north_hand=hs[0], east_hand=hs[1], south_hand=hs[2], west_hand=hs[3])
+    if how == 5 and [H.north, H.east, H.south, H.west] != other:
+        raise AssertionError('copy.copy of a deal followed by rebinding the hands of the copy changed the original')
     return G
 
 
@@ -56,8 +64,11 @@ def use_deal(hands, k=0):
     them in place).  Whatever was read or decoded is the caller's to use; a later read must not see it."""
     for s in range(4):
         h = hands[SEAT[s]]
-        for c in sorted(h, key=lambda c: CARD_IDX[c])[: 1 + (k + s) % 3]:
-            h.discard(c)
+        try:
+            for c in sorted(h, key=lambda c: CARD_IDX[c])[: 1 + (k + s) % 3]:
+                h.discard(c)
+        except Exception:  # noqa  (hands that cannot be changed in place cannot be disturbed either)
+            return
 
 
 def hands_to_ints(hands):
